@@ -4,6 +4,8 @@
 -/
 import Model.Util
 import Driver.C17
+import Driver.C10
+import Driver.C13
 
 open Gep
 
@@ -12,6 +14,8 @@ def dispatch (line : String) : String :=
   | [] => "bad-op"
   | op :: args =>
     if op.startsWith "c17." then Driver.C17.handle op args
+    else if op.startsWith "c10." then Driver.C10.handle op args
+    else if op.startsWith "c13." then Driver.C13.handle op args
     else "bad-op"
 
 partial def loop (h : IO.FS.Stream) (out : IO.FS.Stream) : IO Unit := do
